@@ -97,6 +97,15 @@ func vScenarioC14(rc *runCtx) {
 		o.tunnelFast = false
 		o.flags = cfg.flags()
 	}
+	// -f without a tunnel: the server refuses (the client cannot hand a transfer to the background in-band) and
+	// says so; both sides end with that error, the relays return to standby
+	forkRefused := !cfg.tunnel && ending == "exit" && tp.Bool("c14.forkrefused", 80)
+	if forkRefused {
+		ending = "fork-refused"
+		cfg.fork = true
+		o.flags = cfg.flags()
+		rc.fault("fork-asked-without-tunnel")
+	}
 	if ending == "refused" {
 		o.actEdit = func(act map[string]any) {
 			for k, v := range caps {
@@ -244,7 +253,7 @@ func vScenarioC14(rc *runCtx) {
 		}
 	}
 	// 2. CFG: server's settings preserved, tmux constraints added
-	if ending != "refused" {
+	if ending != "refused" && ending != "fork-refused" {
 		cfgSrv, _, _ := x.downLast().Snapshot()
 		cfgCli, _, _ := x.down[0].Snapshot()
 		cS := vFindMsg(vParseWire(cfgSrv, false), "CFG")
@@ -318,6 +327,9 @@ func vScenarioC14(rc *runCtx) {
 	}
 	// 5. the next transfer through the same relays works
 	cfg2 := *cfg
+	if forkRefused {
+		cfg2.fork = false
+	}
 	if !cfg.tunnel {
 		// the next server need not be of the same kind as the previous one
 		cfg2.srvWindows = tp.Bool("c14.winsrv2", 200)
